@@ -7,6 +7,7 @@ import vlib
 from vlib import gQ, gZ
 
 import props.c07_gen as G
+from props.c07_disc import pregen      # noqa: F401  translator step: coq/C07/GenDisc.v from the pulse template sources
 
 F = fractions.Fraction
 PID = 'C07'
@@ -126,6 +127,11 @@ def _build_node(t, build):
             ents.append((estr(e[0]), estr(v['s']) if 's' in v else tuple(estr(x) for x in v['vec']), e[2]))
         return qp.PointPT(ents, list(t['cs']))
     if k == 'const':
+        if t.get('num'):       # python numbers instead of strings (the duck-typed fast paths of ConstantPT)
+            def num(e):
+                f = F(e[1])
+                return int(f) if f.denominator == 1 else float(f)
+            return qp.ConstantPT(num(t['d']), {c: num(v) for c, v in t['vals'].items()})
         return qp.ConstantPT(estr(t['d']), {c: estr(v) for c, v in t['vals'].items()})
     if k == 'func':
         return qp.FunctionPT(poly_str(t['coef']), estr(t['d']), t['c'])
@@ -139,6 +145,8 @@ def _build_node(t, build):
         return qp.MappingPT(build(t['b']), parameter_mapping={x: estr(e) for x, e in t['pm'].items()},
                             channel_mapping=dict(t['cm']), allow_partial_parameter_mapping=True)
     if k == 'multi':
+        if 'dur' in t:         # explicitly declared duration (must equal the sub-templates' at instantiation)
+            return qp.AtomicMultiChannelPT(*[build(s) for s in t['ps']], duration=estr(t['dur']))
         return qp.AtomicMultiChannelPT(*[build(s) for s in t['ps']])
     if k == 'par':
         return ParallelChannelPulseTemplate(build(t['b']), {c: poly_str(cf) for c, cf in t['ov'].items()})
@@ -223,16 +231,20 @@ def _milne(wf, channel, gden):
     return F(total, 2 ** 40) * F(1, gden) / 3
 
 
-def _program_obs(prog, channels):
+def _program_obs(prog, channels, noint=False):
     import numpy as np
     lv = list(_leaves(prog))
     res = {}
     for c in channels:
+        r0 = F(_ints(np.asarray(lv[0].get_sampled(c, np.array([0.0])), dtype=float))[0], 2 ** 40)
+        if noint:       # template / time dependent scalar: a rational function of t, only the two ends are observed
+            rend = F(_ints(np.asarray(lv[-1].get_sampled(c, np.array([float(lv[-1].duration)])), dtype=float))[0], 2 ** 40)
+            res[c] = (None, r0, None, rend)
+            continue
         i16 = sum(_milne(w, c, 16) for w in lv)
         i8 = sum(_milne(w, c, 8) for w in lv)
         if i16 != i8:
             raise Inexact()
-        r0 = F(_ints(np.asarray(lv[0].get_sampled(c, np.array([0.0])), dtype=float))[0], 2 ** 40)
         dl = float(lv[-1].duration) - 1.0 / 32
         re = F(_ints(np.asarray(lv[-1].get_sampled(c, np.array([dl])), dtype=float))[0], 2 ** 40)
         rend = F(_ints(np.asarray(lv[-1].get_sampled(c, np.array([float(lv[-1].duration)])), dtype=float))[0], 2 ** 40)
@@ -290,7 +302,7 @@ def _observe(pt, params, case, np):
     if prog is None:
         obs['real'] = 'none'
         return obs
-    ro, lv = _program_obs(prog, chans)
+    ro, lv = _program_obs(prog, chans, bool(case.get('noint')))
     total = sum(vlib.to_fraction(w.duration) for w in lv)
     obs['real'] = _fj(total)
     for c in chans:
@@ -323,7 +335,52 @@ def _observe(pt, params, case, np):
                     obs['ch'][c]['pad'].extend(_fj(F(x, 2 ** 40)) for x in _ints(np.asarray(w.get_sampled(c, ts), dtype=float)))
             pos += d
         obs['padded'] = _fj(pos)
+    if case.get('padx'):
+        obs['padx_mismatch'] = _pad_variants(pt, params, total, target, obs, chans, np)
     return obs
+
+
+def _pad_variants(pt, params, total, target, obs, chans, np):
+    """the other ways to call pad_to (round 4, coverage audit): a callable new duration, pt_kwargs, and a target that IS
+    the current duration; the first two must give the program of the plain call (which is checked against the
+    specification), the last one the unpadded pulse"""
+    out = []
+    tstr = str(target) if target.denominator == 1 else '(%s)' % target
+    pad = target - total
+
+    def sample(p2):
+        st, prog = _create(p2, params)
+        if st == 'err' or prog is None:
+            return st if st == 'err' else 'none'
+        res, pos = {c: [] for c in chans}, F(0)
+        for w in _leaves(prog):
+            d = vlib.to_fraction(w.duration)
+            if pos >= total:
+                ts = np.array([0.0, float(d) / 2, float(d) * 0.75])
+                for c in chans:
+                    res[c].extend(_fj(F(x, 2 ** 40)) for x in _ints(np.asarray(w.get_sampled(c, ts), dtype=float)))
+            pos += d
+        return [_fj(pos), res]
+    plain = 'err' if obs.get('padded') == 'err' else 'none' if obs.get('padded') == 'none' else \
+        [obs['padded'], {c: obs['ch'][c]['pad'] for c in chans}]
+    variants = {'callable': lambda: pt.pad_to(lambda d: d + (int(pad) if pad.denominator == 1 else float(pad))),
+                'pt_kwargs': lambda: pt.pad_to(tstr, pt_kwargs={'identifier': 'padded_by_kwargs'})}
+    for name, mk in variants.items():
+        try:
+            got = sample(mk())
+        except Exception as e:
+            got = 'raised %s' % type(e).__name__
+        if got != plain and not (plain == 'err' and str(got).startswith('raised')):
+            out.append('pad_to(%s) plays %s, pad_to(<expression>) plays %s' % (name, got, plain))
+    try:                      # target == current duration: nothing may be appended
+        same = pt.pad_to(str(total) if total.denominator == 1 else '(%s)' % total)
+        st, prog = _create(same, params)
+        d0 = None if st == 'err' or prog is None else vlib.to_fraction(prog.duration)
+        if d0 != total:
+            out.append('pad_to(current duration %s) lasts %s' % (total, d0))
+    except Exception as e:
+        out.append('pad_to(current duration) raised %s' % type(e).__name__)
+    return out[:3]
 
 
 def _fj(x):
@@ -449,6 +506,8 @@ def names_of(case):
             for c in t['coef']:
                 walk_e(c)
         elif k in ('seq', 'multi'):
+            if 'dur' in t:
+                walk_e(t['dur'])
             for s in t['ps']:
                 walk(s)
         elif k == 'rep':
@@ -580,7 +639,9 @@ def to_coq(case, obs):
     if 'crash' in obs or 'hang' in obs:
         return 'CCrash'
     if case.get('kind') == 'tdarith' and not G.embeddable(case['pt']):
-        return 'CExtern'          # time dependent scalar with * : not modelled, Python oracle only (py_spec)
+        return 'CExtern'          # time dependent scalar with * over a table or / : not modelled, Python oracle only (py_spec)
+    if case.get('extern'):
+        return 'CExtern'          # outside Wf.wf (a loop range that mentions the loop index's own name): Python oracle only
     nm = names_of(case)
     rho = g_list('(%d%%N, %s)' % (nm[n], gQ(F(v))) for n, v in sorted(case['params'].items()))
     chobs = []
@@ -623,6 +684,8 @@ def histogram_keys(case, obs):
     keys.append('src:' + case.get('src', 'random'))
     if case.get('kind') == 'tdarith':
         keys.append('tdarith:' + ('embedded-in-model' if G.embeddable(case['pt']) else 'python-oracle-only'))
+    if case.get('extern'):
+        keys.append('extern:python-oracle-only')
     gi, gt = G.guard_flags(case)
     keys.append('guards:%s%s' % ('' if gi else 'initial-head-violated ', '' if gt else 'final-tail-violated') if not (gi and gt)
                 else 'guards:all-hold')
@@ -636,8 +699,8 @@ def histogram_keys(case, obs):
 
 
 def classify(case, obs):
-    if obs.get('hist_mismatch'):
-        return None             # a history dependent answer is never explained by a known finding
+    if obs.get('hist_mismatch') or obs.get('padx_mismatch'):
+        return None             # a history dependent answer / disagreeing pad_to call styles are never explained by a known finding
     return G.classify(case, obs)
 
 
@@ -662,6 +725,8 @@ def py_property(case, obs):
     """The part of the property that needs no denotation: symbolic == real integral / value at 0 / padded samples."""
     if 'crash' in obs or 'hang' in obs:
         return 'implementation crashed: %s' % obs
+    if obs.get('padx_mismatch'):
+        return 'pad_to variants disagree: ' + '; '.join(obs['padx_mismatch'][:2])
     if obs.get('hist_mismatch'):
         # the aliasing / history stream: an answer depended on which other template sharing a sub-template object had
         # been queried before (or on how often) - the symbolic quantities are functions of the template alone
@@ -674,7 +739,7 @@ def py_property(case, obs):
             if o['sint'] != '0':
                 return 'empty pulse but integral[%s] = %s' % (c, o['sint'])
             continue
-        if o['sint'] != o['rint']:
+        if o['sint'] != o['rint'] and not case.get('noint'):
             return 'integral[%s] = %s, instantiated pulse integrates to %s' % (c, o['sint'], o['rint'])
         if o['sini'] != o['r0']:
             return 'initial_values[%s] = %s, instantiated pulse starts at %s' % (c, o['sini'], o['r0'])
